@@ -8,6 +8,11 @@
     l1 <i> <thr> <tgt> <fnex> <modaux> FILE|raw <hex>
                                      → decoder view: "#i e …" per entry, "#i c …" per expanded command,
                                        "#i xerr" when the expansion panics, "#i done|err"
+    svc <i> <tgt> <hexkey> OBJ     → (OBJ = a stream description) the SPECIFICATION's expected expansion
+                                     `StreamE.cmds`: "#i c <cmd> <args…>" per command (compared with the real ExecCmd)
+    svv <i> <tgt> OBJ              → the logical value `StreamE.xval` the oracle theorem `stream_roundtrip` ends in:
+                                     "#i val last=… added=… maxdel=… [id f v …]… {g=… last=… read=… (id consumer time count)…}…"
+                                     (compared with what the real replay leaves in the target double)
     l2 <i> <thr> <tgt> <fnex> <modaux> <restore> <bulk> <par> <tdb> <dbmap> <now> <tick> <replaceHashTag 0|1>
        <dbBlack|-> <prefixBlack hex,..|-> <prefixWhite|-> <slotBlack a:b,..|-> <slotWhite|-> <nPre> (<db> <hexkey>)* FILE|raw <hex>
                                      → per-worker request log "#i w<k> <cmd> <args…>", "#i result ok|err"
@@ -18,6 +23,7 @@
 -/
 import GunYu.Model.Rdb.Enc
 import GunYu.Model.Rdb.Replay
+import GunYu.Model.Rdb.StreamValue
 import GunYu.Model.Slot
 
 namespace GunYu.Drive.C03
@@ -527,7 +533,8 @@ def keyLines (tag : String) (f : FileE) : List String :=
     | [] => []
     | .selectDb _ n :: r => go n r
     | .key k :: r =>
-      (tag ++ s!"key {db} {Hex.encode k.key.val} {k.obj.rtype.toNat} {Hex.encode k.obj.ser} {k.exp.at}") :: go db r
+      (tag ++ s!"key {db} {Hex.encode k.key.val} {k.obj.rtype.toNat} {Hex.encode k.obj.ser} {k.exp.at} " ++
+        (match k.obj with | .stream st => (if st.soundB then "sound" else "unsound") | _ => "-")) :: go db r
     | _ :: r => go db r
   go 0 f.items
 
@@ -559,7 +566,43 @@ def keyFilter (pblack pwhite : List Bytes) (sblack swhite : List (Nat × Nat)) (
   black.any (isPrefixOf · k) || (!pwhite.isEmpty && !pwhite.any (isPrefixOf · k)) ||
     inR sblack || (!swhite.isEmpty && !inR swhite)
 
+/-! ### stream value rendering (svv) -/
+
+/-- target version token: `7` or `6.2` → (major, minor) -/
+def pTgt (t : String) : Option (Nat × Nat) :=
+  match t.splitOn "." with
+  | [a] => a.toNat?.map (fun a => (a, 0))
+  | [a, b] => match a.toNat?, b.toNat? with
+    | some a, some b => some (a, b)
+    | _, _ => none
+  | _ => none
+
+def optStr (o : Option Bytes) : String := match o with | some b => asciiOf b | none => "-"
+
+def showXStream (v : RedisSem.XStream) : String :=
+  s!"last={asciiOf v.lastId} added={optStr v.entriesAdded} maxdel={optStr v.maxDeleted}" ++
+  String.join (v.entries.map (fun e => " [" ++ asciiOf e.id ++ String.join (e.fields.map (fun f => " " ++ Hex.encode f)) ++ "]")) ++
+  String.join (v.groups.map (fun g =>
+    " {g=" ++ Hex.encode g.name ++ " last=" ++ asciiOf g.lastId ++ " read=" ++ optStr g.entriesRead ++
+    String.join (g.pel.map (fun n => s!" ({asciiOf n.id} {Hex.encode n.consumer} {asciiOf n.time} {asciiOf n.count})")) ++
+    " consumers=" ++ ",".intercalate (g.consumers.map Hex.encode) ++ "}"))
+
 def handle : List String → Option (List String)
+  | "svc" :: i :: tgt :: hk :: rest =>
+    let tag := s!"#{i} "
+    match pTgt tgt, Hex.decode hk, pObj rest with
+    | some (tgt, minor), some k, some (.stream st, []) =>
+      if decide st.wf && st.soundB then
+        some ((st.cmds { tgtMajor := tgt, tgtMinor := minor } k).map (fun c => tag ++ "c " ++ showCmd c))
+      else some [tag ++ "unsound"]
+    | _, _, _ => some [tag ++ "bad-desc"]
+  | "svv" :: i :: tgt :: rest =>
+    let tag := s!"#{i} "
+    match pTgt tgt, pObj rest with
+    | some (tgt, minor), some (.stream st, []) =>
+      if decide st.wf && st.soundB then some [tag ++ "val " ++ showXStream (st.xval { tgtMajor := tgt, tgtMinor := minor })]
+      else some [tag ++ "unsound"]
+    | _, _ => some [tag ++ "bad-desc"]
   | ["crc64", h] =>
     match Hex.decode h with
     | some k => some [s!"{(crc64Tab k).toNat} {(crc64Spec k).toNat}"]
@@ -575,9 +618,9 @@ def handle : List String → Option (List String)
     | _ => some [tag ++ "bad-desc"]
   | "l1" :: i :: thr :: tgt :: fnex :: modaux :: rest =>
     let tag := s!"#{i} "
-    match thr.toNat?, tgt.toNat?, fnex.toNat?, pBytes rest with
-    | some thr, some tgt, some fnex, some (bs, []) =>
-      some (l1Lines tag { thr, failModAux := modaux == "1" } { tgtMajor := tgt, fnExists := fnex } bs)
+    match thr.toNat?, pTgt tgt, fnex.toNat?, pBytes rest with
+    | some thr, some (tgt, minor), some fnex, some (bs, []) =>
+      some (l1Lines tag { thr, failModAux := modaux == "1" } { tgtMajor := tgt, fnExists := fnex, tgtMinor := minor } bs)
     | _, _, _, _ => some [tag ++ "bad-desc"]
   | "l2" :: i :: thr :: tgt :: fnex :: modaux :: restore :: bulk :: par :: tdb :: dbmap :: now :: tick :: rht ::
       dbb :: pb :: pw :: sb :: sw :: npre :: rest =>
@@ -587,13 +630,13 @@ def handle : List String → Option (List String)
     match flt with
     | none => some [tag ++ "bad-desc"]
     | some (dbb, pb, pw, sb, sw) =>
-    match thr.toNat?, tgt.toNat?, fnex.toNat?, bulk.toNat?, par.toNat?, strInt tdb, pDbMap dbmap, now.toNat?, npre.toNat?, tick.toNat? with
-    | some thr, some tgt, some fnex, some bulk, some par, some tdb, some dbmap, some now, some npre, some tick =>
+    match thr.toNat?, pTgt tgt, fnex.toNat?, bulk.toNat?, par.toNat?, strInt tdb, pDbMap dbmap, now.toNat?, npre.toNat?, tick.toNat? with
+    | some thr, some (tgt, minor), some fnex, some bulk, some par, some tdb, some dbmap, some now, some npre, some tick =>
       match pPre npre rest with
       | some (pre, rest1) =>
         match pBytes rest1 with
         | some (bs, []) =>
-          let cfg : RCfg := { x := { tgtMajor := tgt, fnExists := fnex }, enableRestore := restore == "1",
+          let cfg : RCfg := { x := { tgtMajor := tgt, fnExists := fnex, tgtMinor := minor }, enableRestore := restore == "1",
                               maxBulk := bulk, parallel := par, targetDb := tdb, dbMap := dbmap, now := now, tick := tick, replaceHashTag := rht == "1",
                               filterDb := fun d => dbb.contains d, filterKey := keyFilter pb pw sb sw }
           let (logs, ok) := sendRdb { thr, failModAux := modaux == "1" } cfg pre bs
